@@ -51,6 +51,21 @@ def lists(variant):
 
     L_ = lambda n, cw=False: Lf(n, variant, cw)  # noqa: E731
 
+    def Nn(n, cw=False):
+        return ["L", "N.%s#%s%s" % (n, variant, "@cw" if cw else "")]
+
+    def n2i(cw=False):  # N2 shrunk by about one unit: N2 minus this is a thin ring around N3
+        vs = [(-8, -9), (24, -8), (25, 22), (-7, 23)]
+        if fl:
+            vs = [(0.25 * a + 0.1, 0.25 * b + 0.1) for a, b in vs]
+        return V(vs, cw)
+
+    def n6(cw=False):  # a quadrilateral inside N4
+        vs = [(6, 6), (9, 6), (10, 9), (7, 9)]
+        if fl:
+            vs = [(0.25 * a + 0.1, 0.25 * b + 0.1) for a, b in vs]
+        return V(vs, cw)
+
     def sq(x, y, cw=False, side=5):
         vs = [(x, y), (x + side, y), (x + side, y + side), (x, y + side)]
         if fl:
@@ -69,6 +84,11 @@ def lists(variant):
         "D:island-in-hole": ("D", [["C!", [L_("big"), L_("sqA", True)]], L_("inner")], ["|", ["-", L_("big"), L_("sqA")], L_("inner")]),
         "D:unbounded-member": ("D", [L_("big", True), L_("inner"), L_("notch")], ["~", ["-", ["-", L_("big"), L_("inner")], L_("notch")]]),
         "D:with-empty": ("D", [L_("inner"), ["E"], L_("far"), ["E"]], ["|", L_("inner"), L_("far")]),
+        # a hollow island inside the hole of a hollow ring (four nested curves), thin and thick rings
+        "D:hollow-island-in-ring": ("D", [["C!", [Nn("N1"), Nn("N2", True)]], ["C!", [Nn("N3"), Nn("N4", True)]]], ["|", ["-", Nn("N1"), Nn("N2")], ["-", Nn("N3"), Nn("N4")]]),
+        # a THIN ring (smaller area than the hollow island inside its hole: the island sorts first)
+        "D:thin-ring-big-island": ("D", [["C!", [Nn("N2"), n2i(True)]], ["C!", [Nn("N3"), Nn("N4", True)]]], ["|", ["-", Nn("N2"), n2i(False)], ["-", Nn("N3"), Nn("N4")]]),
+        "D:island-ring-bigger": ("D", [["C!", [Nn("N2"), Nn("N3", True)]], ["C!", [Nn("N4"), n6(True)]], L_("far")], None),
         # congruent members: equal areas and lengths, so the stored order is the input order
         "D:three-equal": ("D", [sq(-30, 0), sq(0, 0), sq(30, 1)], ["|", ["|", sq(-30, 0), sq(0, 0)], sq(30, 1)]),
         "D:four-equal": ("D", [sq(-30, 0), sq(0, 0), sq(30, 1), sq(0, 40)], ["|", ["|", sq(-30, 0), sq(0, 0)], ["|", sq(30, 1), sq(0, 40)]]),
@@ -220,6 +240,20 @@ def run_case(spec):
                 if not ok:
                     fail("moment", "moment(%d,%d) = %r, reference %s" % (a, b, m, float(want)))
                     break
+        # copy()/deepcopy(): same kind, same structure, same region, == the original
+        from copy import copy as _copy, deepcopy as _deepcopy
+
+        for cname, cfn in (("copy", _copy), ("deepcopy", _deepcopy)):
+            st, Y = call_limited(lambda: cfn(X), 60)
+            if st != "ok":
+                fail(cname, "%s(X) %s" % (cname, st))
+                continue
+            if rg.kind_of(Y) != k or rg.geom_sig(Y) != rg.geom_sig(X):
+                fail(cname, "%s(X) has another structure: %s with %d curves (X: %s with %d curves)" % (cname, rg.kind_of(Y), len(rg.all_jordans(Y)), k, len(rg.all_jordans(X))))
+            elif k not in ("EmptyShape", "WholeShape"):
+                st, eq = call_limited(lambda: Y == X, 120)
+                if st != "ok" or eq is not True:
+                    fail(cname, "%s(X) == X gives %r" % (cname, eq if st == "ok" else st))
         # complement
         st, N = call_limited(lambda: ~X, 60)
         if st != "ok":
